@@ -4,6 +4,7 @@
 package mon
 
 import (
+	"bytes"
 	"errors"
 	"fmt"
 	"io"
@@ -132,6 +133,12 @@ type ScriptedReader struct {
 }
 
 func (s *ScriptedReader) Pos() int { return s.pos }
+
+// Reset makes the same reader value deliver another stream (a pooled or
+// recycled reader).
+func (s *ScriptedReader) Reset(data []byte, steps []Step, final error) {
+	*s = ScriptedReader{Data: data, Steps: steps, Final: final}
+}
 
 func (s *ScriptedReader) Read(p []byte) (int, error) {
 	s.Calls++
@@ -297,6 +304,60 @@ type EOFWrappingErr struct{}
 func (EOFWrappingErr) Error() string        { return "verif: transport: read failed: EOF" }
 func (EOFWrappingErr) Is(target error) bool { return target == ErrInjected }
 func (EOFWrappingErr) Unwrap() error        { return io.EOF }
+
+// TimeoutErr is a transport failure of the kind a net.Conn deadline
+// produces: it identifies as ErrInjected, and reports Timeout() and
+// Temporary() as true.
+type TimeoutErr struct{}
+
+func (TimeoutErr) Error() string        { return "verif: i/o timeout" }
+func (TimeoutErr) Timeout() bool        { return true }
+func (TimeoutErr) Temporary() bool      { return true }
+func (TimeoutErr) Is(target error) bool { return target == ErrInjected }
+
+// SliceErr is an error of an uncomparable type (aggregate errors are often
+// slices); it matches any other SliceErr and ErrInjected through its Is method.
+type SliceErr []string
+
+func (e SliceErr) Error() string { return "verif: " + strings.Join(e, "; ") }
+func (e SliceErr) Is(target error) bool {
+	if _, ok := target.(SliceErr); ok {
+		return true
+	}
+	return target == ErrInjected
+}
+
+// StagedReader is a connection wrapper that embeds the buffer it stages
+// incoming bytes in: Len() (promoted from bytes.Buffer) says how much is
+// staged right now, not how much the stream still holds.
+type StagedReader struct {
+	*bytes.Buffer
+	Src   []byte
+	Chunk int
+	pos   int
+}
+
+func NewStagedReader(data []byte, chunk int) *StagedReader {
+	return &StagedReader{Buffer: &bytes.Buffer{}, Src: data, Chunk: chunk}
+}
+
+func (s *StagedReader) Read(p []byte) (int, error) {
+	if s.Buffer.Len() == 0 {
+		if s.pos >= len(s.Src) {
+			return 0, io.EOF
+		}
+		n := s.Chunk
+		if n > len(s.Src)-s.pos {
+			n = len(s.Src) - s.pos
+		}
+		s.Buffer.Write(s.Src[s.pos : s.pos+n])
+		s.pos += n
+	}
+	return s.Buffer.Read(p)
+}
+
+// Consumed is the number of stream bytes handed out so far.
+func (s *StagedReader) Consumed() int { return s.pos - s.Buffer.Len() }
 
 // ---------------------------------------------------------------- meter
 
